@@ -115,7 +115,7 @@ L1(act, o) ==
          ELSE Frame(h, h2, {}, {}, Subtree(h, i), {}) /\ o.roots = roots \ {i}
     [] a = "InsertItemInArray" ->
          LET p == act[2] idx == act[3] i == act[4] c == IF p = NULL THEN <<>> ELSE Kids(h, p) IN
-         IF idx < 0 \/ i = NULL \/ p = NULL \/ (p = i /\ idx >= Len(c)) THEN Unchanged(h, roots, o) /\ o.res = Flag(FALSE)
+         IF idx < 0 \/ i = NULL \/ p = NULL \/ p = i THEN Unchanged(h, roots, o) /\ o.res = Flag(FALSE)
          ELSE /\ o.res = Flag(TRUE)
               /\ Kids(h2, p) = IF idx >= Len(c) THEN Append(c, i) ELSE LmInsertAt(c, idx + 1, i)
               /\ Frame(h, h2, {p}, {}, {}, {}) /\ o.roots = roots \ {i}
@@ -268,7 +268,7 @@ Insert ==
   \E p \in MaybeNull(Arrs), idx \in -1..N, i \in MaybeNull(Loose) :
      /\ F("arr")
      /\ p # NULL => idx <= Len(Kids(h, p)) + 1
-     /\ (p # NULL /\ i # NULL) => (p # i /\ CanHold(p, i))
+     /\ (p # NULL /\ i # NULL /\ p # i) => CanHold(p, i)                   \* p = i: the container itself, refused at every index
      /\ Take(<<"InsertItemInArray", p, idx, i>>, InsertItemInArray(h, roots, p, idx, i))
 
 Replace ==
